@@ -253,6 +253,14 @@ def decide(pid, tier, seed):
         if item in base_out and cur_out.get(item) != base_out[item]:
             fails.append({"function": item, "obligation": "%s changed (outside the verified text: formatting is beyond the verifier; decided by the witness step only)" % item,
                           "props": props_, "specific": False, "line": 0, "message": "token hash %s, baseline %s" % (cur_out.get(item), base_out[item]), "rendered": ""})
+    # "with_capacity(n) and reserve(k) guarantee room": vstd's view of Vec has no capacity, so that clause of C13 cannot be
+    # a contract; the three one-line functions are compared with the verified text instead, and a change hands C13 to the
+    # witness step (whose oracle reads capacity())
+    for fn_ in ("Arena::reserve", "Arena::with_capacity", "Arena::capacity"):
+        st_ = g["splice"]["functions"].get(fn_, {})
+        if st_ and st_.get("status") != "exact":
+            fails.append({"function": fn_, "obligation": "%s changed; its capacity guarantee is std's and cannot be stated over vstd's view of Vec (decided by the witness step only)" % fn_,
+                          "props": ["C13"], "specific": False, "line": 0, "message": "function text differs from the verified text", "rendered": ""})
     # derive lists the contracts rely on (derived Clone/PartialEq/Eq/Copy/Default taken with their std meaning)
     for tname, d in sorted(g["splice"].get("derives_changed", {}).items()):
         lost_tr = sorted(set(d["contracts"]) - set(d["repo"]))
